@@ -27,9 +27,8 @@ correspondence in `harness/props/c13.py`):
 * `str.format` of the wrap template is modelled for templates whose only braces are `{output_param}` fields, and the
   substituted text is assumed to be a fixed point of `ast.unparse ∘ ast.parse` (templates in `unparse` normal form);
 * `--input-eval`: the evaluated value of the input variable is a parameter (CPython evaluates it);
-* one (input-param, output-param) pair per call: with repeated `--input-param` / `--output-param` options the real code rewrites an
-  output tree that still carries the `_location`/`_idx` attributes of the first pass (and of input nodes moved into
-  it); that stale state is not modelled.
+* this file models ONE (input-param, output-param) pair per call; several pairs in one call (stale `_location` / `_idx`
+  between the rewrites, input nodes moved into the output tree) are modelled in `Model/SyncPropertiesMulti.lean`.
 -/
 namespace SyncProps
 open PyAst
